@@ -4,6 +4,7 @@ CONSTANTS
   Backs = {"b1", "b2", "b3"}
   BackSeq <- MCBackSeq
   MethodExcluded = FALSE
+  PurgeEvictsLive = FALSE
   MaxOps = 10
 VIEW PropView
 INVARIANTS Sticky PinsAreAnswered
